@@ -229,5 +229,17 @@ func driveETHClient(t *testing.T, in, out string, seed int64) {
 			line["st"] = tree.project(c)
 			tw.Emit(line)
 		}
+		// determinism probe (C14): a child of the genesis header dated around the wall clock (the date is an input, the
+		// same for every replica).  The code must judge it against the block time only: far in the future, refused.
+		if wb, err := strconv.ParseUint(os.Getenv("VERIF_WALLBASE"), 10, 64); err == nil && wb > 0 {
+			hd := *tree.Hdr["a1"]
+			hd.Time = wb
+			hd.Extra = []byte("wall")
+			msg, err := clienttypes.NewMsgUpdateClient(ethName, &hd, c.Accts[lcRelayer].Acc)
+			must(err)
+			r := c.DeliverMsgs(c.Accts[lcRelayer], msg)
+			tw.Emit(M{"ev": "Submit", "b": bi, "i": len(b) + 1, "args": M{"act": "Submit", "x": "wallclock"}, "sig": "Submit/wallclock",
+				"res": resOf(r), "msg": clip(r.Log), "code": fmt.Sprintf("%s/%d", r.Codespace, r.Code), "dg": M{"pre": "", "post": c.Digest("xibc")}, "st": tree.project(c)})
+		}
 	}
 }
